@@ -70,6 +70,8 @@ class SymCtx:
         self.frame = Frame(self.specmod)
         self._install_helpers()
         self.n_ensures = 0
+        for parent, nm, old in reversed(modules.pop('<patched>', [])):      # c.patch of the previous path
+            parent.attrs[nm] = old
 
     # ------------------------------------------------------------------ inputs
     def _reg(self, name, kind, payload, value):
@@ -337,6 +339,42 @@ class SymCtx:
         recording stubs; the symbolic interpreter models those externals already"""
         self.I.load_module(modref)
 
+    def patch(self, ref, value):
+        """(added for C20) replace the module / class attribute `ref` ('pkg.mod:Name' or 'pkg.mod:Class.attr') by
+        `value` (an Ext stub, a list, a constant) for this path.  The interpreted modules are shared by
+        the paths of a contract, so the original is put back when the next path starts."""
+        modname, _, qual = ref.partition(':')
+        parts = qual.split('.')
+        parent = self.I.resolve(modname + ':' + '.'.join(parts[:-1]))
+        if not isinstance(parent, (ModuleVal, ClassVal)) or parts[-1] not in parent.attrs:
+            raise EngineError('%s: nothing to patch' % ref)
+        self.I.modules.setdefault('<patched>', []).append((parent, parts[-1], parent.attrs[parts[-1]]))
+        parent.attrs[parts[-1]] = self._lift(value)
+        self.I.note_assumption('%s is replaced by a stub of the contract' % ref)
+        return parent.attrs[parts[-1]]
+
+    def concretize(self, expr, limit=64):
+        """python int value of an integer spec expression; forks over the feasible values when the
+        path condition does not determine it (at most `limit` values)"""
+        v = self.I.eval_spec(expr, self.frame) if isinstance(expr, str) else expr
+        if isinstance(v, bool):
+            return int(v)
+        if isinstance(v, int):
+            return v
+        if isinstance(v, SBool):
+            return 1 if self.path.decide(v.t) else 0
+        t = self.path.reduce(v.t)
+        if z3.is_int_value(t):
+            return t.as_long()
+        for _ in range(limit):
+            r = self.path.check()
+            if r != z3.sat:
+                raise OutOfSubset('concretize: path condition not satisfiable/decidable')
+            val = self.path.last_model.eval(t, model_completion=True).as_long()
+            if self.path.decide(t == val):
+                return val
+        raise Budget('concretize: more than %d values' % limit)
+
     def invoke(self, target, *args, **kwargs):
         """call a real function/method as a side effect (e.g. from inside an external callback)"""
         f = self.I.resolve(target) if isinstance(target, str) else (self.I.getattr(target[0], target[1]) if isinstance(target, tuple) else target)
@@ -446,6 +484,8 @@ class SymCtx:
                 try:
                     return {'real': float(v.as_fraction())}
                 except Exception:
+                    if not hasattr(v, 'approx'):
+                        return {'real': 0.0}        # variable in no component model (unconstrained): any value, as ev_int
                     return {'real': float(v.approx(20).as_fraction())}
             if z3.is_true(z3.simplify(z3.fpIsNaN(v))):
                 return {'f64bits': 0x7ff8000000000000}
@@ -613,11 +653,6 @@ class SymCtx:
         @helper('field')
         def _field(I_, a, k):
             return I.getattr(a[0], a[1])
-
-        @helper('queue_items')
-        def _queue_items(I_, a, k):
-            """current content of a queue.Queue (oldest first)"""
-            return tuple(a[0].items)
 
         @helper('crc32')
         def _crc(I_, a, k):
